@@ -240,3 +240,32 @@ def validate(runs, wd, chunk_events=40000, tag="vm"):
             os.remove(path)
         part += 1
     return viols, totals
+
+
+def trace_leg(rep, prop, cases, wd, n, jobs=6, maxsteps=20000, timeout=90):
+    """re-run a sample of `cases` with the instruction-level hooks on and let TraceVM.tla validate the recorded events;
+    violations are filed on `rep`; returns the coverage counters"""
+    if not cases or n <= 0:
+        return {}
+    stride = max(1, len(cases) // n)
+    traced = [dict(c, id=c["id"] + "@vm", trace=FLAGS, maxsteps=maxsteps) for c in cases[::stride][:n]]
+    tobs, _ = vlib.run_harness(traced, wd, name="traced", jobs=jobs, timeout=timeout)
+    runs = [(c["id"], o.get("events")) for c, o in zip(traced, tobs) if o.get("events")]
+    viols, cov = validate(runs, wd)
+    byid = {c["id"]: (c, o) for c, o in zip(traced, tobs)}
+    for x in viols:
+        c, o = byid.get(x["run"], ({"id": x["run"]}, {}))
+        if x["kind"].startswith("rewrite"):
+            key = "%s|vm|%s|%s" % (prop, x["kind"], x["info"][:160])
+        else:
+            key = "%s|vm|%s|%s" % (prop, x["kind"], x["info"].split(",")[0].strip('<"> '))
+        rep.finding(key, c, o, [x], "TraceVM rejects the event: %s %s (run %s, event %d)" % (x["kind"], x["info"][:300], x["run"], x["line"]))
+    for p in [o.get("events") for o in tobs]:
+        if p and os.path.exists(p):
+            os.remove(p)
+    return {"vm_traced_runs": len(runs), "vm_instruction_steps_validated": cov.get("steps_checked", 0),
+            "vm_calls_returns_validated": cov.get("calls_returns", 0), "vm_steps_outside_model": cov.get("steps_unmodelled", 0),
+            "vm_steps_value_undecided": cov.get("steps_undecided", 0), "peephole_rewrites_validated": cov.get("rewrites", 0),
+            "peephole_rewrites_undecided": cov.get("rewrites_undecided", 0),
+            "peephole_rewrites_outside_model": cov.get("rewrites_unmodelled", 0),
+            "assembled_instructions_validated": cov.get("assembled", 0)}
